@@ -124,3 +124,19 @@ Theorem C06_checker_verdict_and_output_independent_of_map_order : forall intern 
   check_program intern f P = COk A -> check_program intern (S (length (up_fns P)) * f) Q = COk A.
 Proof. exact check_perm_final. Qed.
 Print Assumptions C06_checker_verdict_and_output_independent_of_map_order.
+
+(* ... UNCONDITIONALLY (Check/InferPerm6.v): an accepted program's syntactic call graph is acyclic
+   ([accepted_acyclic]: every function of an accepted program is checked, every syntactic call site is
+   visited, and the checker rejects recursion), so the Boolean premise disappears: the checker's
+   verdict and its typed output do not depend on the order in which its three maps are iterated.
+   Remaining hypotheses: distinct keys (HashMap) and an injective interning (the code uses strings). *)
+From GV Require Import Check.InferPerm6.
+
+Theorem C06_checker_independent_of_map_order_unconditional : forall intern P Q f A,
+  (forall a b, intern a = intern b -> a = b) ->
+  up_consts Q = up_consts P -> up_main Q = up_main P ->
+  Permutation (up_fns P) (up_fns Q) -> Permutation (up_structs P) (up_structs Q) -> Permutation (up_enums P) (up_enums Q) ->
+  NoDup (map uf_name (up_fns P)) -> NoDup (map us_name (up_structs P)) -> NoDup (map ue_name (up_enums P)) ->
+  check_program intern f P = COk A -> check_program intern (S (length (up_fns P)) * f) Q = COk A.
+Proof. exact check_perm_final_unconditional. Qed.
+Print Assumptions C06_checker_independent_of_map_order_unconditional.
